@@ -52,6 +52,41 @@ PwMeansDF(tk, re, ca, cb) ==
        << Sq(Add(A, B)),
           Add(Div(Sq(A), Sub(CellNv(tk, re, cb), One)), Div(Sq(B), Sub(CellNv(tk, re, ca), One))) >>
 
+\* --- overlapping MR columns (response with overlap measures) ------------------------
+\* Two MR items are answered by the same respondents, so the two column proportions are
+\* not independent.  With (pooled over the respondents valid on the row dimension /
+\* on the row item)  S_a, S_b, S_ab = weight selecting a, b, both;  N_a, N_b, N_ab =
+\* weight non-missing on a, b, both;  p_x = S_x / N_x;  df = N_a + N_b - N_ab:
+\*     t = (colprop_b - colprop_a) / sqrt((p_a(1-p_a) + p_b(1-p_b) + 2 p_a p_b - 2 p_ab) / df)
+\* and the p-value is the Student-t tail with df - 2 degrees of freedom.
+OvWt(tk, re, a, b, valid) ==
+  SumResp(LAMBDA k :
+    LET q == k.p[VarOf(DimC)] IN
+    IF (IF valid THEN q[a] # MIS /\ q[b] # MIS ELSE q[a] = SEL /\ q[b] = SEL)
+    THEN IndProd(k.p, Co(tk, re, AnyEl(DimC)), Md("own", "any"), 1) * StatOf(k, WS)
+    ELSE 0)
+OvP(tk, re, a, b) == Div(R(OvWt(tk, re, a, b, FALSE)), R(OvWt(tk, re, a, b, TRUE)))
+OvDF(tk, re, a, b) ==
+  R(OvWt(tk, re, a, a, TRUE) + OvWt(tk, re, b, b, TRUE) - OvWt(tk, re, a, b, TRUE))
+
+PwOvT(tk, re, ca, cb) ==
+  LET a == ca.item  b == cb.item IN
+  IF a = b THEN <<0, Zero, One>>
+  ELSE LET pa == OvP(tk, re, a, a)  pb == OvP(tk, re, b, b)  pab == OvP(tk, re, a, b)
+           V == Sub(Add(Add(Mul(pa, Sub(One, pa)), Mul(pb, Sub(One, pb))), Mul(R(2), Mul(pa, pb))),
+                    Mul(R(2), pab))
+           d == Sub(ColProp(tk, re, cb), ColProp(tk, re, ca))
+       IN  <<SignR(d), Sq(d), Div(V, OvDF(tk, re, a, b))>>
+PwOvDF(tk, re, ca, cb) == Sub(OvDF(tk, re, ca.item, cb.item), R(2))
+
+PwOvTMat(tk, RS, CS, sel) ==
+  [k |-> "fq_ssqrt", nd |-> 2,
+   v |-> Mat(Len(RS), Len(CS), LAMBDA i, j : PwOvT(tk, RS[i], CS[sel], CS[j]))]
+PwOvPMat(tk, RS, CS, sel) ==
+  [k |-> "tail_t", nd |-> 2,
+   v |-> Mat(Len(RS), Len(CS), LAMBDA i, j :
+             <<PwOvT(tk, RS[i], CS[sel], CS[j]), <<PwOvDF(tk, RS[i], CS[sel], CS[j]), One>>>>)]
+
 \* --- outputs -----------------------------------------------------------------------
 \* for the selected display column sel (1-based position in CS): one matrix
 PwTMat(tk, RS, CS, sel) ==
@@ -92,6 +127,7 @@ PwIdxCandidates(tk, RS, CS, T(_, _, _, _), DF(_, _, _, _), fq) ==
                         ELSE <<DF(tk, RS[i], CS[j], CS[c]), One>>]])]
 
 PwIdx(tk, RS, CS)      == PwIdxCandidates(tk, RS, CS, PwT, PwDF, FALSE)
+PwOvIdx(tk, RS, CS)    == PwIdxCandidates(tk, RS, CS, PwOvT, PwOvDF, FALSE)
 PwMeansIdx(tk, RS, CS) == PwIdxCandidates(tk, RS, CS, PwMeansT, PwMeansDF, TRUE)
 
 \* theorems checked by TLC on the spec: antisymmetry of t (the square is symmetric, the
